@@ -7,6 +7,7 @@ import (
 	"sort"
 	"strconv"
 	"strings"
+	"sync"
 
 	"github.com/prometheus/client_golang/prometheus"
 	"pgregory.net/rapid"
@@ -241,4 +242,37 @@ func globMatch(pattern, s string) bool {
 		return si == len(r)
 	}
 	return rec(0, 0)
+}
+
+// ---------------------------------------------------------------------------------------------
+// ring-edge series: boundary values of the hash space
+
+const ringEdgeTenant = "edge-tenant"
+
+var (
+	ringEdgeOnce sync.Once
+	ringEdge     []*prompb.TimeSeries
+)
+
+// ringEdgeSeries returns series of tenant ringEdgeTenant whose hashring position
+// (labelpb.HashWithPrefix, the function ketama placement uses) is among the 40 lowest and the 40
+// highest of 400000 candidates, i.e. within ~1e-4 of the ends of the 64-bit hash space.
+func ringEdgeSeries() []*prompb.TimeSeries {
+	ringEdgeOnce.Do(func() {
+		type cand struct {
+			h  uint64
+			ts *prompb.TimeSeries
+		}
+		const n, keep = 400000, 40
+		all := make([]cand, 0, n)
+		for i := 0; i < n; i++ {
+			ts := &prompb.TimeSeries{Labels: []labelpb.ZLabel{{Name: "__name__", Value: "edge"}, {Name: "i", Value: strconv.Itoa(i)}}}
+			all = append(all, cand{labelpb.HashWithPrefix(ringEdgeTenant, ts.Labels), ts})
+		}
+		sort.Slice(all, func(i, j int) bool { return all[i].h < all[j].h })
+		for i := 0; i < keep; i++ {
+			ringEdge = append(ringEdge, all[i].ts, all[len(all)-1-i].ts)
+		}
+	})
+	return ringEdge
 }
